@@ -674,12 +674,12 @@ ElemNumber::getPreviousNode(
                 next = pos->getParentNode();
 
                 if(0 != next &&
-                   next->getNodeType() == XalanNode::DOCUMENT_NODE ||
-                   (0 != fromMatchPattern &&
-                        fromMatchPattern->getMatchScore(
-                            next,
-                            *this,
-                            executionContext) != XPath::eMatchScoreNone))
+                   (next->getNodeType() == XalanNode::DOCUMENT_NODE ||
+                    (0 != fromMatchPattern &&
+                         fromMatchPattern->getMatchScore(
+                             next,
+                             *this,
+                             executionContext) != XPath::eMatchScoreNone)))
                 {
                     pos = 0; // return 0 from function.
 
